@@ -64,13 +64,13 @@ static const char *all_keyword[] = {
 	"MIN", "MINIMUM", "MINIMIZE",
 	"MAX", "MAXIMUM", "MAXIMIZE",
 	"SUBJECT", "ST", "PROBLEM", "PROB",
-	"BOUNDS", "BOUND", "INTEGER", "END", NULL
+	"BOUNDS", "BOUND", "INTEGER", "INT", "END", NULL
 };
 static int all_keyword_len[] = {
 	3, 7, 8,
 	3, 7, 8,
 	7, 2, 7, 4,
-	6, 5, 7, 3, -1
+	6, 5, 7, 3, 3, -1
 };
 
 int EGLPNUM_TYPENAME_ILLread_lp_state_init (
@@ -337,8 +337,10 @@ int EGLPNUM_TYPENAME_ILLread_lp_state_has_colon (
 	char *pp;
 
 	EGLPNUM_TYPENAME_ILLread_lp_state_skip_blanks (state, 0);
-	for (pp = state->p; *pp != '\n'; pp++)
+	for (pp = state->p; *pp != '\n' && *pp != '\0'; pp++)
 	{
+		/* stop at the terminator: what follows is the comment cut off by
+		 * next_line, or stale text of an earlier line */
 		if (*pp == ':')
 		{
 			return 1;
@@ -399,8 +401,14 @@ int EGLPNUM_TYPENAME_ILLtest_lp_state_next_is (
 	EGLPNUM_TYPENAME_ILLread_lp_state_skip_blanks (state, 0);
 	if (strncasecmp (state->p, str, strlen (str)) == 0)
 	{
-		state->p += strlen (str);
-		return 1;
+		/* the word must end here: "free2" is a name, not the keyword "free" */
+		char *q = state->p + strlen (str);
+
+		if (EGLPNUM_TYPENAME_ILL_ISBLANK (q) || END_LINE (q))
+		{
+			state->p = q;
+			return 1;
+		}
 	}
 	return 0;
 }
